@@ -2,6 +2,7 @@ package verifsim
 
 import (
 	"fmt"
+	"regexp"
 	"strings"
 
 	"github.com/frankkopp/FrankyGo/verifsim/rules"
@@ -242,10 +243,13 @@ func RunUciScript(sc *Scenario) *UciRunOut {
 				before = us.PositionFen()
 			}
 			if st.Op == "send" && len(tok) > 0 && tok[0] == "go" {
-				wantBest++
+				// relative accounting: a damaged go may or may not have been answered
+				b, _, _ := us.Counts()
+				wantBest = b + 1
 			}
 			if len(tok) > 0 && tok[0] == "isready" && st.Op == "send" {
-				wantReady++
+				_, r, _ := us.Counts()
+				wantReady = r + 1
 			}
 			nIn := countIn(us)
 			out.noteArrival(sim, us, st, tok, i > 0 && st.GapUs == 0)
@@ -280,6 +284,9 @@ func RunUciScript(sc *Scenario) *UciRunOut {
 					} else if prefix != nil {
 						want = append(want, prefix.Fen())
 					}
+					// a tolerant reading of a damaged fen (missing fields get
+					// defaults, surplus fields are ignored) is acceptable too
+					want = append(want, tolerantPositions(st.Line)...)
 				}
 				if len(tok) > 0 && tok[0] == "ucinewgame" {
 					want = append(want, rules.StartFen)
@@ -384,6 +391,53 @@ func simExhausted(s *Sim) bool { return s.Exhausted }
 
 //go:norace
 func simSearching(s *Sim) bool { return s.SearchActive }
+
+// tolerantPositions returns the positions a lenient parser may read out of
+// a damaged "position fen ..." line: the first up to six fen fields (missing
+// ones defaulted), followed by the whole or the legal prefix of the moves.
+func tolerantPositions(line string) []string {
+	tok := strings.Fields(line)
+	if len(tok) < 2 || tok[0] != "position" {
+		return nil
+	}
+	var starts []*rules.Pos
+	j := 2
+	switch tok[1] {
+	case "startpos":
+		starts = append(starts, rules.MustFen(rules.StartFen))
+	case "fen":
+		for j < len(tok) && tok[j] != "moves" {
+			j++
+		}
+		for n := 1; n <= 6 && 2+n <= j; n++ {
+			if p, err := rules.ParseFen(strings.Join(tok[2:2+n], " ")); err == nil {
+				starts = append(starts, p)
+			}
+		}
+	default:
+		return nil
+	}
+	var out []string
+	for _, p := range starts {
+		out = append(out, p.Fen())
+		if j < len(tok) && tok[j] == "moves" {
+			q := p.Clone()
+			for _, m := range tok[j+1:] {
+				if q.Play(m) != nil {
+					// a lenient reader may find the move inside a token with stray bytes
+					sub := reMoveInToken.FindString(strings.ToLower(m))
+					if sub == "" || q.Play(sub) != nil {
+						break
+					}
+				}
+			}
+			out = append(out, q.Fen())
+		}
+	}
+	return out
+}
+
+var reMoveInToken = regexp.MustCompile(`[a-h][1-8][a-h][1-8][nbrq]?`)
 
 func countIn(us *UciSession) int { return us.tr.inCount() }
 
